@@ -6,6 +6,8 @@ CONSTANTS
  FaultSets <- AnyOneFault
  Checked = TRUE
  FlagFirst = TRUE
+ PipeCap = 99
+ JoinChecked = TRUE
 INVARIANT AtMostOnce
 INVARIANT ReturnedImpliesAll
 INVARIANT NoLossAtSet
